@@ -47,6 +47,12 @@ type wsPipe struct {
 
 type wsConn struct {
 	in, out *wsPipe
+	// strict: a back-end of the nhooyr/coder kind, whose peer sends every message in several frames
+	// (data, then an empty final frame): the next message is handed out only after the previous
+	// one has been read to its end (a Read has returned io.EOF). Lenient back-ends (gorilla)
+	// discard what was left unread.
+	strict bool
+	last   *fragReader
 }
 
 func newWSPair(s *Sim, fragA, fragB func() int) (*wsConn, *wsConn) {
@@ -66,10 +72,12 @@ func (c *wsConn) Ping(context.Context) error { return nil }
 type fragReader struct {
 	b    []byte
 	frag func() int
+	eof  bool
 }
 
 func (r *fragReader) Read(p []byte) (int, error) {
 	if len(r.b) == 0 {
+		r.eof = true
 		return 0, io.EOF
 	}
 	n := len(p)
@@ -85,9 +93,14 @@ func (r *fragReader) Read(p []byte) (int, error) {
 }
 
 func (c *wsConn) Reader(ctx context.Context) (websocket.MessageType, io.Reader, error) {
+	if c.strict && c.last != nil && !c.last.eof {
+		c.in.s.Stat("c13.next-reader-refused-previous-message-unfinished")
+		return 0, nil, errors.New("failed to get reader: previous message not read to completion")
+	}
 	select {
 	case b := <-c.in.q:
-		return websocket.MessageBinary, &fragReader{b: b, frag: c.in.frag}, nil
+		c.last = &fragReader{b: b, frag: c.in.frag}
+		return websocket.MessageBinary, c.last, nil
 	case <-c.in.closed:
 		return 0, nil, transport.ErrAlreadyClosed
 	case <-ctx.Done():
@@ -351,6 +364,10 @@ func runC13(s *Sim) {
 	switch kind {
 	case "websocket":
 		ca, cb := newWSPair(s, frag, frag)
+		if Pick(t, "ws-backend-kind", "hands-out-next-message-only-after-the-previous-was-read-to-its-end", "discards-unread-rest") != "discards-unread-rest" {
+			ca.strict, cb.strict = true, true
+			s.Stat("env.websocket-backend-requires-message-read-to-completion")
+		}
 		wnp := websocket.NegotiationParams{NegotiationParams: np}
 		A = websocket.New(websocket.Config{Conn: ca, NegotiationParams: wnp})
 		B = websocket.New(websocket.Config{Conn: cb, NegotiationParams: wnp})
